@@ -129,6 +129,16 @@ def r1_effects(program, rep):
                 cands = [(X, node)]
             for alt, at in cands:
                 pa = plain(alt)
+                if pa[0] == "dict" and len(pa[1]) == 1 and \
+                        alt[0] == "new" and alt[2][1][0][0][0] == "elem" and \
+                        alt[2][1][0][1] in (
+                            ("item", alt[2][1][0][0][1], alt[2][1][0][0]),
+                            ("comp", ("elem", ("items", alt[2][1][0][0][1])),
+                             1)):
+                    # one option at a time: {name: options[name]} for every
+                    # name of the options
+                    alt = alt[2][1][0][0][1]
+                    pa = plain(alt)
                 has_kw = alt == kwp
                 has_ov = False
                 if pa[0] == "call" and pa[1] == ("global", "dict"):
@@ -514,7 +524,8 @@ def r3_splice(program, folder, rep):
             ups = [c for c in calls_in(fn, "update_default_values")
                    if chain(call_name(c)[1]) == svname]
             okp = len(ups) >= 2 and all(
-                cfg.dominates(cfg.node_containing(c), ds[0].node)
+                cfg.reaches(cfg.node_containing(c), ds[0].node) and
+                not cfg.reaches(ds[0].node, cfg.node_containing(c))
                 for c in ups)
             # sv = structs[b"sv"], and structs is returned
             svd = fl.reaching(svname, ds[0].node)
@@ -757,6 +768,31 @@ def r1_controller_forwarding(program, rep):
                    "configuration area")
 
 
+def _fmt_norm(f):
+    """A struct format as (byte order, expanded item codes): '!H4I' and
+    '>HIIII' lay down the same bytes."""
+    if not isinstance(f, (str, bytes)):
+        return None
+    if isinstance(f, bytes):
+        f = f.decode("latin-1")
+    f = f.replace(" ", "")
+    order = "native"
+    if f and f[0] in "@=<>!":
+        order = {"<": "little", ">": "big", "!": "big"}.get(f[0], "native")
+        f = f[1:]
+    out, num = [], ""
+    for ch in f:
+        if ch.isdigit():
+            num += ch
+        elif ch in "sp":
+            out.append(num + ch)
+            num = ""
+        else:
+            out.extend([ch] * (int(num) if num else 1))
+            num = ""
+    return order, tuple(out)
+
+
 def r4_packet(program, folder, rep):
     fn = program.get(MOD + ":boot_packet")
     inst = qual(fn)
@@ -783,7 +819,8 @@ def r4_packet(program, folder, rep):
     hdr, body = plain(sent[2]), sent[3]
     PACK = ("attr", ("global", "struct"), "pack")
     okh = hdr[0] == "call" and hdr[1] == PACK and len(hdr[2]) == 6 and \
-        const(hdr[2][0]) == "!H4I" and const(hdr[2][1]) == 1 and \
+        _fmt_norm(const(hdr[2][0])) == _fmt_norm("!H4I") and \
+        const(hdr[2][1]) == 1 and \
         list(hdr[2][2:]) == [("param", p_) for p_ in ps[1:5]]
     rep.check(okh, "C20-R4", inst,
               "header = pack('!H4I', 1, cmd, arg1, arg2, arg3)",
@@ -792,11 +829,14 @@ def r4_packet(program, folder, rep):
     okw = okc = False
     if elem is not None:
         pe = plain(elem)
-        m = match(("call", PACK, (V("f"), ("comp", ("call", (
-            "attr", ("global", "struct"), "unpack"), (V("g"), V("w")), ()),
-            0)), ()), pe)
+        UNP_ = ("call", ("attr", ("global", "struct"), "unpack"),
+                (V("g"), V("w")), ())
+        # (the single item of the unpacked word: [0] or *unpacking)
+        m = match(("call", PACK, (V("f"), ("comp", UNP_, 0)), ()), pe) or \
+            match(("call", PACK, (V("f"), ("star", UNP_)), ()), pe)
         if m is not None:
-            okw = const(m["f"]) == "!I" and const(m["g"]) == "<I"
+            okw = _fmt_norm(const(m["f"])) == _fmt_norm("!I") and \
+                _fmt_norm(const(m["g"])) == _fmt_norm("<I")
             # the word: find it un-plained inside the element
             WORD = None
             for st_ in subterms(elem):
@@ -811,7 +851,8 @@ def r4_packet(program, folder, rep):
             "attr", ("global", "struct"), "iter_unpack"),
             (V("g"), V("w")), ())), 0)), ()), plain(elem))
         if m is not None:
-            okw = const(m["f"]) == "!I" and const(m["g"]) == "<I"
+            okw = _fmt_norm(const(m["f"])) == _fmt_norm("!I") and \
+                _fmt_norm(const(m["g"])) == _fmt_norm("<I")
             okc = len(ps) > 5 and m["w"] == ("param", ps[5])
     matched = okw or okc or elem is None
     if elem is not None and not okw:
